@@ -27,6 +27,25 @@ func (in *Interp) external(fn *ssa.Function) extFn {
 	if o := fn.Origin(); o != nil {
 		name = o.String()
 	}
+	if symGuarded[name] && !in.NoModel[name] {
+		// formatting an integer: interpreted as it is on concrete operands; on a
+		// symbolic one the digit loop would fan out over table look-ups, so the
+		// path ends as unsupported at once
+		return func(in *Interp, fn *ssa.Function, args []Value) Value {
+			for _, a := range args {
+				if i, ok := a.(Int); ok && i.T != nil {
+					panic(unsupported(name + " on a symbolic integer"))
+				}
+			}
+			if in.NoModel == nil {
+				in.NoModel = map[string]bool{}
+			}
+			prev := in.NoModel[name]
+			in.NoModel[name] = true
+			defer func() { in.NoModel[name] = prev }()
+			return in.call(fn, args, nil)
+		}
+	}
 	if e, ok := externals[name]; ok && !in.NoModel[name] {
 		return func(in *Interp, fn *ssa.Function, args []Value) Value {
 			in.Stubs[name]++
@@ -582,6 +601,12 @@ func (in *Interp) countByte(cells SymStr, c Int) Value {
 		n = tt.Bin(OpAdd, n, tt.Ite(tt.BoolTerm(eq), tt.Const(64, 1), tt.Const(64, 0)))
 	}
 	return symInt(n)
+}
+
+// symGuarded: functions interpreted from their real bodies unless an integer
+// argument is symbolic.
+var symGuarded = map[string]bool{
+	"strconv.AppendInt": true, "strconv.AppendUint": true, "strconv.FormatInt": true, "strconv.FormatUint": true, "strconv.Itoa": true,
 }
 
 func sortSliceModel(in *Interp, fn *ssa.Function, a []Value) Value {
